@@ -69,7 +69,8 @@ static int scan_cb(YR_SCAN_CONTEXT* ctx, int msg, void* data, void* ud)
     st->first_rule = 0;
     yr_rule_strings_foreach(r, s)
     {
-      yr_string_matches_foreach(ctx, s, m)
+      // walk the list directly: yr_string_matches_foreach hides private matches
+      for (m = ctx->matches[s->idx].head; m != NULL; m = m->next)
       {
         memit("%s%s.%s@%" PRId64 ":%d:%d%s", st->first_match ? "" : ";", r->identifier, s->identifier,
               (int64_t) (m->base + m->offset), m->match_length, (int) m->xor_key, m->is_private ? "p" : "");
